@@ -36,5 +36,8 @@ for f in files:
         if "{" in s or "\\" in s:
             continue
         strs.add(s)
+    # character literals ('$', '-', ...): conditions such as starts_with('$') put them into the source text
+    for m in re.finditer(r"(?<![A-Za-z0-9_&<])'([^'\\\n])'", text):
+        strs.add(m.group(1))
 os.makedirs(os.path.dirname(out) or ".", exist_ok=True)
 json.dump({"ints": sorted(ints)[:400], "strs": sorted(strs)[:300]}, open(out, "w"))
